@@ -295,7 +295,7 @@ func (r *runner) Run(t *rt.Trace, c Cfg, parents [][]Msg, sched []Step) {
 			}
 		}
 	}
-	t.Reset(rt.M{"kind": c.Kind, "edge": c.Edge, "n": c.N, "fill": c.Fill, "tol": c.Tol, "on": c.On,
+	t.Reset(rt.M{"kind": c.Kind, "flow": c.Edge, "n": c.N, "fill": c.Fill, "tol": c.Tol, "on": c.On,
 		"parents": encParents(parents), "gid": gmap, "onof": onof})
 
 	var colls []kapacitor.BatchCollector
